@@ -840,12 +840,21 @@ func main() {
 		ents, _ := os.ReadDir(*corpus)
 		for _, e := range ents {
 			if ops, err := hlib.ReadLines(*corpus + "/" + e.Name()); err == nil && len(ops) > 0 {
+				before := len(res.Failures)
 				if strings.HasPrefix(ops[0], "spec ") {
 					replaySpec(ops, res)
 				} else {
 					runOne(ops, 0, false)
 				}
 				res.Count("corpus")
+				// A corpus file is a regression test of a repaired defect and must pass, unless its
+				// name says that the defect is still open (`*.open.txt`). A failing regression gets
+				// its own signature so that it cannot hide behind a finding that is still listed.
+				if len(res.Failures) > before && !strings.Contains(e.Name(), ".open.") {
+					f := &res.Failures[len(res.Failures)-1]
+					f.Detail = "corpus regression " + e.Name() + " fails again: " + f.Detail
+					f.Sig = "corpus-regression-" + strings.TrimSuffix(e.Name(), ".txt")
+				}
 			}
 		}
 	}
